@@ -3,7 +3,7 @@ import core
 from core import hx, gen_int, gen_mag
 
 ID = "C16"
-READY = False
+READY = True
 ORACLE = "c16"
 HARNESS_BIN = "c16"
 NCASES = {"quick": 9000, "thorough": 120000}
@@ -359,7 +359,7 @@ def gen_float(rng, tier, out):
         out.append("f.%s %s %s %s" % (op, head, x, y))
     elif k < 28:
         op = rng.choice(F_CTX1)
-        hg = huge and op not in ("exp", "exp_m1")
+        hg = huge and op not in ("exp", "exp_m1", "ln", "ln_1p")     # ln scales by 2^|log2 x|: exponents must fit memory
         x = fval(rng, base, prec, False, hg)
         if op in ("exp", "exp_m1"):
             x = small_exponent(rng, x)
@@ -384,7 +384,7 @@ def gen_float(rng, tier, out):
         out.append("f.%s %s %s %s" % (op, head, x, y))
     elif k < 78:
         op = rng.choice(F_VAL1)
-        hg = huge and op not in ("v_exp", "v_exp_m1", "to_int", "repr_to_int", "try_ibig", "try_ubig", "try_rbig", "try_relaxed", "trunc", "fract",
+        hg = huge and op not in ("v_exp", "v_exp_m1", "v_ln", "v_ln_1p", "to_int", "repr_to_int", "try_ibig", "try_ubig", "try_rbig", "try_relaxed", "trunc", "fract",
                                  "ceil", "floor", "round", "split_at_point", "fmt", "repr_fmt", "with_base2", "with_base10", "with_base3",
                                  "with_base16", "to_decimal", "to_binary", "serde_json", "postcard")
         x = fval(rng, base, prec, True, hg)
